@@ -146,6 +146,12 @@ impl Model {
     }
 }
 
+/// cached model of interface `index`
+pub fn model(index: usize) -> &'static Model {
+    static CACHE: std::sync::OnceLock<Vec<Model>> = std::sync::OnceLock::new();
+    &CACHE.get_or_init(|| (0..IFACES.len()).map(Model::of).collect())[index]
+}
+
 pub fn ifaces_of(f: Family) -> Vec<usize> {
     IFACES.iter().filter(|i| i.family == f).map(|i| i.index).collect()
 }
